@@ -175,7 +175,7 @@ class GW(StoreW):
         if ref: t.append(A_bytes(K.CKA_LABEL, objs.label(ref)))
         if key and r.random() < 0.8: t += [A_ulong(K.CKA_CLASS, r.choice([K.CKO_SECRET_KEY, K.CKO_SECRET_KEY, K.CKO_PRIVATE_KEY, K.CKO_DATA, 99])), A_ulong(K.CKA_KEY_TYPE, r.choice([K.CKK_AES, K.CKK_GENERIC_SECRET, K.CKK_DES3, K.CKK_DES, K.CKK_DES2, K.CKK_RSA, K.CKK_EC, 0x999]))]
         pool = [A_bool(K.CKA_TOKEN, r.random() < 0.4), A_bool(K.CKA_PRIVATE, r.random() < 0.4), A_bool(K.CKA_SENSITIVE, r.random() < 0.5), A_bool(K.CKA_EXTRACTABLE, r.random() < 0.5),
-                A_ulong(K.CKA_VALUE_LEN, r.choice([0, 1, 8, 16, 24, 32, 33, 512, 1 << 20, (1 << 64) - 1])), A_bytes(K.CKA_ID, objs.rnd(r, r.choice([0, 3, 300]))), [K.CKA_LABEL, "n", 5], [K.CKA_ID, "x", "", True],
+                A_ulong(K.CKA_VALUE_LEN, r.choice([0, 1, 8, 16, 24, 32, 33, 512, 1 << 20, (1 << 64) - 1])), A_bytes(K.CKA_ID, objs.rnd(r, r.choice([0, 3, 300]))), [K.CKA_LABEL, "n", 0], [K.CKA_ID, "x", "", True],
                 [K.CKA_VALUE_LEN, "x", "10000000"], [K.CKA_TOKEN, "x", "0101"], A_bytes(K.CKA_START_DATE, objs.rnd(r, r.choice([0, 7, 8, 9]))), [K.CKA_ALLOWED_MECHANISMS, "x", objs.rnd(r, r.choice([0, 7, 8, 16, 20])).hex()],
                 [K.CKA_WRAP_TEMPLATE, "t", [A_bool(K.CKA_EXTRACTABLE, True), A_bytes(K.CKA_LABEL, objs.rnd(r, 4))][: r.randint(0, 2)]], [K.CKA_UNWRAP_TEMPLATE, "x", objs.rnd(r, r.choice([1, 23, 24, 25])).hex()],
                 [0x7FFFFFF2, "x", "00"], A_bool(K.CKA_DERIVE, True), A_bool(K.CKA_ENCRYPT, True), A_bool(K.CKA_SIGN, True), A_bool(K.CKA_WRAP, True), A_bytes(K.CKA_CHECK_VALUE, objs.rnd(r, r.choice([0, 2, 3, 4])))]
@@ -195,7 +195,7 @@ class GW(StoreW):
             elif x < 0.5: del tmpl[i]
             elif x < 0.7 and tmpl[i][1] == "x" and tmpl[i][2]: tmpl[i] = [tmpl[i][0], "x", tmpl[i][2][:-2]]
             elif x < 0.85: tmpl.insert(i, r.choice([A_bytes(K.CKA_PRIME, b"\x01"), A_bytes(K.CKA_SUBPRIME, b""), A_bytes(K.CKA_BASE, objs.rnd(r, 5)), A_ulong(K.CKA_KEY_TYPE, r.choice([K.CKK_DSA, K.CKK_DH, K.CKK_EC_EDWARDS, K.CKK_EC])), A_bytes(K.CKA_EC_POINT, objs.rnd(r, r.choice([0, 1, 2, 33, 67])))]))
-            else: tmpl[i] = [tmpl[i][0], "n", r.choice([1, 8, 1 << 40])]
+            else: tmpl[i] = [tmpl[i][0], "n", 0]      # NULL pointer is only well-typed with a zero length
         return tmpl
 
     # ---------------- storage corruption
